@@ -46,6 +46,8 @@ claimed = {
  "C20": dict(design="5/C20", text="uniprot.Parse (the token loop) executed from SSA against every event script up to the stated length (entries, entries damaged inside, other elements/tokens, syntax errors), channel capacities 0/1/100, both documented consumer shapes and every explored schedule: entries before the damage are delivered once and in order, a damaged document reports at least one error, both channels are closed and the parser terminates (no deadlock, step budget as termination obligation).",
              note="encoding/xml.Decoder is an event-script stub with sticky syntax errors (natively the same script is laid out as a real Uniprot XML document for replay). There is no symbolic data in this check: scripts and schedules are enumerated by the executor and no solver query is needed; entry content, gzip and byte-level truncation are outside the claim.",
              tech="exhaustive exploration of event scripts x goroutine schedules by the polysym symbolic executor over the real go/ssa (no symbolic data: the state space is enumerated, the solver is not consulted); deadlock / step-budget detection; native replay"),
+ "C09": dict(design="5/C09", text="Designed assemblies (1..2/3 junctions, alternatives, either orientation, input order, dead-end decoy) with symbolic fragment interiors run through CircularLigate / getConstructs / recurseLigate / seqhash.Hash from SSA with simulated goroutines and channels: returned constructs and the rings of the design correspond (none missing, none spurious, no two the same molecule up to rotation and strand); scheduling independence on concrete pools over all explored interleavings; the full GoldenGate pipeline with BsaI carriers; termination on pools whose overhangs close a cycle excluding the seed.",
+             note="Goroutines are scheduled at synchronisation points only; GOMAXPROCS, the Go scheduler and the race detector are outside the claim. BLAKE3 is an assumed collision-free uninterpreted function."),
 }
 
 na_reason = {}
